@@ -347,7 +347,7 @@ class GetTransformFxn(Contract):
                     if pr is None:
                         return False
                     arr, sel = pr
-                    r = c.fresh_int('grp_r')
+                    r = I.ctx.fresh_int('grp_r')
                     return z3.Implies(z3.And(0 <= r, r < I.np.dim_z(arr.shape[0])), arr.fn(r) == data.ufn(sel.fn(r), chs[ci]))
                 I.prove_forked('population[%d][k]-holds-exactly-the-events-with-the-k-th-label' % ci, group_mask)
                 I.prove_forked('population[%d][k]-passed-to-statistic-and-selection-is-column-c-of-those-events' % ci, group_values)
@@ -380,6 +380,26 @@ class GetTransformFxn(Contract):
         P('populations-ordered-by-non-decreasing-distance', z3.Implies(z3.And(0 <= k1, k1 < k2, k2 < U), dist(Pf(k1)) <= dist(Pf(k2))),
           assume_after=False)
         P('each-label-group-appears-once', z3.Implies(z3.And(0 <= k1, k1 < k2, k2 < U), uq(Pf(k1)) != uq(Pf(k2))), assume_after=False)
+        # the sort key is the squared distance to the origin of the population's mean over the clustering channels
+        src = getattr(psi, 'sorted_src', None)
+        pops_sorted = env.get('populations')
+
+        def key_is_distance():
+            if src is None or pops_sorted is None:
+                return False
+            got = I.np.link_element(src, Pf(k))
+            if got is None:
+                got = SV(src.fn(Pf(k)), 'real')
+            pop = I.seq_get_sym(pops_sorted, k)
+            cols = stamp(Seq('list', [SV(x, 'int') for x in aux['cch']]))
+            X = I.getitem(pop, stamp(Seq('tuple', [M.SliceV(None, None, None), cols])))
+            m = I.np.col_stat('mean', X, 0)
+            tot = None
+            for j in range(len(aux['cch'])):
+                t_ = m.fn(z3.IntVal(j)) * m.fn(z3.IntVal(j))
+                tot = t_ if tot is None else tot + t_
+            return I.z(got, 'real') == tot
+        I.prove_forked('sort-key-of-the-k-th-population-is-the-squared-distance-of-its-mean-over-the-clustering-channels', key_is_distance)
         pd = env.get('population_dist')
         # ---- fits and the returned transformation --------------------------------------------------------------------------------
         tf = v.get('transform_fxn')
